@@ -153,7 +153,7 @@ API_SURFACE = [
     {"entry": "comparator: lambda closure", "called": True, "by": "variants avl5, bdl4"},
     {"entry": "comparator disagreeing with the element's operator<", "called": True, "by": "every G case; counted for sampling with >= 2 threads in input_distribution.sampling_comparator_not_natural_order"},
     {"entry": "global tlx::parallel_multiway_merge_oversampling (1, 2, 3, 10)", "called": True, "by": "every case"},
-    {"entry": "#if defined(_OPENMP) thread creation", "called": "thorough tier", "by": "quick tier: built without OpenMP, as the library's own tests (the std::thread branch is the one modelled); thorough tier: a -fopenmp build runs the corpus and a sample of cases, results judged against the property (windows differ: the calling thread is team member 0). Finding reported in docs/audit/C06.md: the branch deadlocks when the OpenMP runtime delivers fewer threads than requested"},
+    {"entry": "#if defined(_OPENMP) thread creation", "called": "thorough tier", "by": "quick tier: built without OpenMP, as the library's own tests (the std::thread branch is the one modelled); thorough tier: a -fopenmp build runs the corpus and a sample of cases, results judged against the property. Finding reported in docs/audit/C06.md: the branch deadlocks when the OpenMP runtime delivers fewer threads than requested"},
     {"entry": "global tlx::parallel_multiway_merge_oversampling = 0", "called": "exact splitting only", "by": "unused by exact splitting (covered); with sampling the sort throws std::bad_array_new_length before touching the input (outside the property, docs/audit/C06.md)"},
 ]
 
